@@ -313,6 +313,17 @@ def directed_case(rng, kind, analysis=None, floating=True):
         g.element('L', [perm[0], perm[1]])
         g.element('L', [perm[2], perm[3]])
         g.element('K')
+    elif kind in ('Kic1', 'Kic2'):
+        # coupled inductors in an initial-value problem: exactly one of the pair (Kic1) or both (Kic2) with an
+        # explicit initial current
+        g.analysis = analysis = 'ivp'
+        g.kinds = ['K']
+        which = rng.randint(0, 1)
+        for i_, nn_ in enumerate(([perm[0], perm[1]], [perm[2], perm[3]])):
+            val = rng.choice([Fraction(1), Fraction(4), Fraction(9), Fraction(1, 4), Fraction(4, 9)])
+            ic = (' %s' % fs(sv(rng))) if (kind == 'Kic2' or i_ == which) else ''
+            g.inductors[g.add('L', nn_, val, extra_model=ic, symbolic_ok=False)] = val
+        g.element('K')
     elif kind == 'Cic':
         g.analysis = analysis = 'ivp'
         g.add('C', perm[:2], rv_, extra_model=' %s' % fs(sv_))
@@ -344,7 +355,7 @@ def directed_case(rng, kind, analysis=None, floating=True):
             'subs': dict(g.subs), 'omega': g.omega, 'kinds': [kind], 'directed': kind}
 
 
-DIRECTED_KINDS = ['E', 'Eac', 'Eopamp', 'EopampRo', 'G', 'F', 'H', 'TF', 'GY', 'TR', 'AM', 'K', 'Cic', 'Lic', 'I', 'W',
+DIRECTED_KINDS = ['E', 'Eac', 'Eopamp', 'EopampRo', 'G', 'F', 'H', 'TF', 'GY', 'TR', 'AM', 'K', 'Kic1', 'Kic2', 'Cic', 'Lic', 'I', 'W',
                   'Hamm', 'HL', 'HR', 'HC', 'TPA', 'TPB', 'TPG', 'TPH', 'TPY', 'TPZ', 'SPpp', 'SPpm', 'SPppp', 'SPpmm', 'SPppm', 'TL']
 
 
